@@ -49,10 +49,11 @@ _ZT = {}
 
 
 def zone_table(zn):
-    """-> (base offset at LO, [(t, off)...]) over [T0-40d, T0+800d], from the zoneinfo database"""
+    """-> (base offset at LO, [(t, off)...]) over [T0-40d, T0+1100d] (2033-04 .. 2036-05, so that a leap-year
+    February lies inside), from the zoneinfo database"""
     if zn in _ZT:
         return _ZT[zn]
-    lo, hi = T0 - 40 * 86400, T0 + 800 * 86400
+    lo, hi = T0 - 40 * 86400, T0 + 1100 * 86400
     if zn == 'UTC' or zoneinfo is None:
         _ZT[zn] = (0, [], lo, hi)
         return _ZT[zn]
@@ -493,8 +494,89 @@ def gen_m2(rnd, tier):
             for nm in reversed(names):
                 lines.append('tp_upd name=%s b=%d e=%d clear=0' % (nm, we, we2))
         cases.append({'lines': lines, 'tags': {'family': fam, 'zone': zn, 'transition_window': bool(want_tr)}})
+    cases += gen_month_family(random.Random(rnd.random()), tier)
     cases += directed_m2()
     return cases
+
+
+def gen_month_family(rnd, tier):
+    """day definitions that NAME a month (<month> N, <month> -N, <month> N - <month> M, <month> N - M, with and without
+    stride, n-th weekday of a named month incl. negative n), evaluated over windows that lie in the named month, in the
+    month before / after it, across its boundaries and around Feb 28/29 of leap and non-leap years.  The day numbers
+    are taken from the window's own first day, so an implementation that resolved the specification in the month being
+    evaluated instead of the named month would match inside the window."""
+    import calendar
+    out = []
+    n = {'quick': 360, 'thorough': 4000, 'search': 1500}.get(tier, 360)
+    forms = ['pos', 'neg', 'range', 'range', 'range-neg', 'range-cross', 'nth', 'nthneg', 'nth-range']
+
+    def shift_month(y, m, k):
+        m0 = (m - 1) + k
+        return y + m0 // 12, m0 % 12 + 1
+
+    for i in range(n):
+        zn = ZONES[i % 4]
+        # D = first local day of the window
+        r = rnd.random()
+        if r < 0.3:
+            y = rnd.choice((2034, 2035, 2036))                     # 2036 is a leap year
+            D = datetime.date(y, rnd.choice((2, 2, 3)), 1) + datetime.timedelta(days=rnd.choice((-3, -2, -1, 0, 26, 27, 28, 29)))
+            if D.month not in (1, 2, 3):
+                D = datetime.date(y, 2, 28)
+            where = 'feb-end'
+        else:
+            y, m = rnd.choice(((2033, rnd.randint(7, 12)), (2034, rnd.randint(1, 12)), (2035, rnd.randint(1, 12)), (2036, rnd.randint(1, 3))))
+            dim = calendar.monthrange(y, m)[1]
+            pos = rnd.choice(('first', 'last', 'last', 'mid', 'second-last'))
+            D = datetime.date(y, m, {'first': 1, 'last': dim, 'mid': rnd.randint(2, dim - 1), 'second-last': dim - 1}[pos])
+            where = 'month-' + pos
+        dim = calendar.monthrange(D.year, D.month)[1]
+        # the named month: the window's own month, the one before, the one after
+        k = rnd.choice((0, 0, -1, 1, -1, 1))
+        ny, nm = shift_month(D.year, D.month, k)
+        rel = {0: 'inside', -1: 'month-after-named', 1: 'month-before-named'}[k]
+        form = rnd.choice(forms)
+        wd = (D.weekday() + 1) % 7
+        nth, nthneg = (D.day - 1) // 7 + 1, -((dim - D.day) // 7 + 1)
+        neg = D.day - dim - 1                                          # D is the |neg|-th last day of its month
+        stride = rnd.choice((1, 1, 2, 3))
+        first, last = None, None
+        if form == 'pos':
+            first = ('m', nm - 1, D.day + rnd.choice((0, 0, 1)))
+            stride = 1
+        elif form == 'neg':
+            first = ('m', nm - 1, neg - rnd.choice((0, 0, 1)) if neg < -1 else neg)
+            stride = 1
+        elif form == 'range':
+            lo = max(1, D.day - rnd.randint(0, 4))
+            first, last = ('m', nm - 1, lo), ('m', nm - 1, min(31, D.day + rnd.randint(0, 4)))
+        elif form == 'range-neg':
+            first, last = ('m', nm - 1, max(1, D.day - rnd.randint(0, 6))), ('m', nm - 1, rnd.choice((-1, -1, -2, neg)))
+        elif form == 'range-cross':
+            y2, m2 = shift_month(ny, nm, 1)
+            if y2 != ny:
+                m2, nm = nm, nm - 1 if nm > 1 else nm           # "december N - january M" never matches; keep the range inside a year
+                m2 = nm + 1
+            first, last = ('m', nm - 1, max(1, D.day - rnd.randint(0, 6))), ('m', m2 - 1, rnd.randint(1, 6))
+        elif form == 'nth':
+            first = ('w', wd, nth, nm - 1)
+            stride = 1
+        elif form == 'nthneg':
+            first = ('w', wd, nthneg, nm - 1)
+            stride = 1
+        else:
+            first, last = ('w', wd, nth, nm - 1), ('w', (wd + rnd.randint(0, 3)) % 7, rnd.choice((nth, min(4, nth + 1), -1)), nm - 1)
+        s, a = daydef(first, last, stride, rnd)
+        d0 = days_from_civil(D.year, D.month, D.day)
+        wb = mk_local(zn, d0 * 86400) + rnd.choice((0, 0, 3600 * 5, 43200, 86399, 23 * 3600))
+        we = wb + rnd.choice((86400, 86400, 2 * 86400, 3 * 86400, 4 * 86400))
+        trs = rand_times(rnd, zn, rnd.choice(('one', 'allday', 'to24', 'two')))
+        lines = ['now %d' % T0, tz_line(zn, wb - 5 * 86400, we + 5 * 86400),
+                 'tp_pts ' + ','.join(str(p) for p in cal_probes(zn, wb, we, trs)), 'tp_new name=a',
+                 range_line('a', s, a, trs, rnd), 'tp_upd name=a b=%d e=%d clear=1' % (wb, we)]
+        out.append({'lines': lines, 'tags': {'family': 'm2-month-name', 'zone': zn, 'month_form': form, 'month_rel': rel, 'month_where': where,
+                                            'leap_feb': bool(D.year == 2036 and D.month in (2, 3) and where == 'feb-end')}})
+    return out
 
 
 def directed_m2():
